@@ -359,6 +359,7 @@ func inheritedDrop(p *Program, list []allowEntry, fn *ssa.Function, callee strin
 // checkNoDroppedErrors runs E5 over the functions of the given packages.
 func checkNoDroppedErrors(p *Program, r *Result, pkgs []string) {
 	allow := loadAllowDropped(r)
+	checkLatchReturned(p, r, pkgs)
 	counts := map[string]int{}
 	for _, fn := range p.Funcs {
 		if !inPkg(fn, pkgs...) {
@@ -374,6 +375,10 @@ func checkNoDroppedErrors(p *Program, r *Result, pkgs []string) {
 			}
 			if why, ok := neverFails[s.Callee]; ok {
 				r.OK(fn.String(), key, r.pos(s.Call), "dropped: "+why, Witness{Kind: "table", Text: why})
+				continue
+			}
+			if li := p.writesIntoLatch(s.Call); li != nil {
+				r.OK(fn.String(), key, r.pos(s.Call), "dropped: the destination is a latching writer ("+short(li.write.String())+" keeps the first error in "+li.name+" and sends nothing after it); the function that made it returns that error (latch-returned)", Witness{Kind: "table", Text: "latching writer"})
 				continue
 			}
 			if s.Callee == "(*os.File).Close" && closesReadOnlyFile(s.Call) {
@@ -1069,6 +1074,9 @@ func checkNoSilentRefusal(p *Program, r *Result, pkgs []string) {
 			bad := ""
 			var walk func(ph *ssa.Phi, d int)
 			walk = func(ph *ssa.Phi, d int) {
+				if _, tested := nilFact(retFacts, ph, false); tested {
+					return // the merged error was found non-nil on the way to this return
+				}
 				for k, e := range ph.Edges {
 					if p2, ok := e.(*ssa.Phi); ok && d < 2 {
 						walk(p2, d+1)
